@@ -6,14 +6,15 @@ import z3
 from engine import repo
 from engine.pathsym import pdmodel, symdata
 from engine.pathsym.core import SymBool, SymInt, Violation, model_value
-from . import h_join, oracle, ref, scenario
+from . import h_join, oracle, ref, scenario, tracecheck
 
 DEFAULTS = dict(mode='matcher', nl=2, nr=2, ncand=[2, 3], k=1, kmin=0, missing='sym',
                 tokenizer=[True, False], comp_ops=['>=', '>', '<=', '<', '=', '!='],
                 allow_missing=[False, True], out_sim_score=[True, False],
                 out_attrs=[(None, None), (['x'], ['y', 'attr'])], n_jobs=[1, 2],
                 cand_index=[None], extra_col=[False, True], filter=None, measure='JACCARD',
-                thresholds=[0.5], props=None, bound_method=[False, True], cpu_count=None)
+                thresholds=[0.5], props=None, bound_method=[False, True], cpu_count=None,
+                validate_every=150)
 
 _COUNTER = [0]
 
@@ -238,7 +239,11 @@ def make(cfg_in):
         sample = None
         if _COUNTER[0] <= 2:
             sample = detail('-', '-', '-')(c.get_model())
-        return {'nontrivial': len(exp) > 0, 'tags': ['rows=%d' % len(exp)], 'sample': sample}
+        tags = ['rows=%d' % len(exp)]
+        if tracecheck.maybe_validate(c, 'h_cand', detail('-', 'trace-validation', '-'), cfg['validate_every'],
+                                     'C05' if mode == 'matcher' else 'C06'):
+            tags.append('validated')
+        return {'nontrivial': len(exp) > 0, 'tags': tags, 'sample': sample}
 
     return h
 
